@@ -1292,7 +1292,8 @@ void rtosc::path_search(const rtosc::Ports& root,
             types[pos]    = 'b';
             if(p.metadata && *p.metadata) {
                 args[pos].b.data = (unsigned char*) p.metadata;
-                auto tmp = rtosc::Port::MetaContainer(p.metadata);
+                //length() assumes the leading ':' has been stripped (meta())
+                auto tmp = p.meta();
                 args[pos++].b.len  = tmp.length();
             } else {
                 args[pos].b.data = (unsigned char*) NULL;
